@@ -1,3 +1,4 @@
+import RemocModel.Conn.Model
 import Driver.Util
 /-
 Driver for the fail-stop correspondence of the layers above raw ports (C06, harness `faultup`): traces of
@@ -8,7 +9,8 @@ fault scheduled at one item index.  Every API call is a `call <k> <side> <kind> 
 
 Checks on the real observations (`FAIL <trace> c06 ..`), with T_dead(X) = instant at which the dispatcher of
 side X ended:
-  - both dispatchers end with an error within timeout_A + timeout_B after the fault;
+  - both dispatchers end with an error within timeout_A + timeout_B after the fault, the one that is shown a sink /
+    stream error or the end of the stream at once;
   - no call is pending at the end (after one more hour of virtual time: the hang detector);
   - every call of side X returns by max(its start, T_dead(X)) (+ 5 ms for the settle granularity): pending
     calls are released when the dispatcher ends, later calls return without waiting;
@@ -21,9 +23,11 @@ side X ended:
     order, repetitions allowed; mirror: a prefix of the pushes; lazy: the value);
   - nothing panicked, no wire livelock;
   - without a fault: no dispatcher ends, no call fails.
-Output: `END <trace> events=<n> replay=ok c06=<ok|FAIL> fired=<0|1> calls=<n> judged=<n>`.
+and compares the class of each dispatcher result with `Remoc.Conn.runLoop` on the observed fault (`DIFF`): the
+endpoint that is shown the fault ends with its class, the other one with `timeout`.
+Output: `END <trace> events=<n> replay=<ok|mismatch> c06=<ok|FAIL> fired=<0|1> calls=<n> judged=<n>`.
 -/
-open Driver
+open Driver Remoc.Conn
 
 abbrev AL (α : Type) := List (String × α)
 def AL.get? {α} (m : AL α) (k : String) : Option α := (m.find? (·.1 == k)).map (·.2)
@@ -60,6 +64,9 @@ structure USim where
   events : Nat := 0
   timeouts : AL Nat := []
   fault : Option (String × Nat) := none       -- (kind, t) of the first fault that fired
+  faultObs : String := ""                      -- the side that is shown it
+  planKind : String := ""
+  replayOk : Bool := true
   dead : AL (String × Nat) := []              -- side ↦ (class, t)
   calls : List Call := []
   puts : AL (List (String × Nat)) := []       -- channel ↦ (sender, value) in start order
@@ -69,6 +76,17 @@ structure USim where
   c06 : Bool := true
   judged : Nat := 0
   out : List String := []
+
+def USim.diff (s : USim) (line : Nat) (what : String) : USim :=
+  { s with replayOk := false, out := if s.out.length < 12 then s.out ++ [s!"DIFF {s.name} line={line} {what}"] else s.out }
+
+def resOfText (t : String) : Res :=
+  if t.startsWith "sink" then .sink else if t.startsWith "stream" then .stream else if t.startsWith "closed" then .closed
+  else if t.startsWith "timeout" then .timeout else if t.startsWith "protocol" then .protocol else if t.startsWith "reset" then .reset
+  else if t.startsWith "ok" then .ok else .running
+
+def evOfKind (k : String) : Ev :=
+  if k == "sink" then .sinkError else if k == "stream" then .streamError else if k == "eof" then .streamClosed else .timeout
 
 def USim.fail (s : USim) (line : Nat) (what : String) : USim :=
   { s with c06 := false, out := if s.out.length < 12 then s.out ++ [s!"FAIL {s.name} c06 line={line} {what}"] else s.out }
@@ -139,6 +157,14 @@ def USim.finish (s : USim) (line : Nat) : USim :=
       | none => s.fail line s!"dispatcher {x} never ended after the {kind} fault at t={tf}"
       | some (cls, t) =>
         let s := if cls == "ok" then s.fail line s!"dispatcher {x} ended with Ok after the {kind} fault" else s
+        -- classification against the model of the run loop (not for a two-sided stall, where either side may be first,
+        -- nor for a cut inside `Connect::framed`, whose error is that of the connect call)
+        let expected : Res := if x == s.faultObs then runLoop [Ev.work, evOfKind kind] else runLoop [Ev.work, Ev.work, Ev.timeout]
+        let s := if cls != "failed-in-connect" && s.planKind != "stallboth" && resOfText cls != expected then
+            s.diff line s!"dispatcher {x}: the model's run loop ends with {repr expected}, the real one with '{cls}'" else s
+        -- the endpoint that is shown an error (not a silent stall) ends at once, not at its timeout
+        let s := if x == s.faultObs && (kind == "sink" || kind == "stream" || kind == "eof") && t > tf + 5 then
+            s.fail line s!"dispatcher {x} was shown the {kind} fault at t={tf} and ended only at t={t}: not as soon as it could observe the fault" else s
         if t > bound then s.fail line s!"dispatcher {x} ended {t - tf} ms after the {kind} fault, more than timeout_A + timeout_B = {ta + tb} ms" else s) s
     -- hangs
     let s := if s.pendingEnd != "-" then s.fail line s!"after a {kind} fault these calls never returned: {s.pendingEnd}" else s
@@ -182,7 +208,7 @@ def finishTrace (s : USim) : IO Unit := do
   if s.name != "" then
     let s := if s.ended then s else s.fail 0 "trace has no end line (harness died)"
     for l in s.out do IO.println l
-    IO.println s!"END {s.name} events={s.events} replay=ok c06={if s.c06 then "ok" else "FAIL"} fired={if s.fault.isSome then 1 else 0} calls={s.calls.length} judged={s.judged}"
+    IO.println s!"END {s.name} events={s.events} replay={if s.replayOk then "ok" else "mismatch"} c06={if s.c06 then "ok" else "FAIL"} fired={if s.fault.isSome then 1 else 0} calls={s.calls.length} judged={s.judged}"
 
 def stepLine (a : UAcc) (n : Nat) (line : String) : IO UAcc := do
   let ws := words line
@@ -193,9 +219,12 @@ def stepLine (a : UAcc) (n : Nat) (line : String) : IO UAcc := do
     return { sim := { name := name }, traces := a.traces + 1 }
   | "cfg" :: x :: rest =>
     return { a with sim := { s with timeouts := s.timeouts.set x ((kvNat rest "timeout").getD 0) } }
-  | "fault" :: _ :: kind :: rest =>
+  | "plan" :: rest => return { a with sim := { s with planKind := (kvGet rest "kind").getD "" } }
+  | "fault" :: obs :: kind :: rest =>
     let t := (kvNat rest "t").getD 0
-    return { a with sim := { s with fault := match s.fault with | some f => some f | none => some (kind, t) } }
+    return { a with sim := match s.fault with
+      | some _ => s
+      | none => { s with fault := some (kind, t), faultObs := obs } }
   | "run" :: x :: cls :: rest =>
     let t := (kvNat rest "t").getD 0
     return { a with sim := { s with dead := if (s.dead.get? x).isSome then s.dead else s.dead.set x (cls, t) } }
